@@ -206,6 +206,18 @@ Proof.
     eapply balanced_c_ok; eassumption.
 Qed.
 
+(* pyramid.paster.bootstrap (get_app, then scripting.prepare): acquires like prepare; the with-form is balanced *)
+Lemma bootstrap_balanced :
+  (forall s k s' tr, exec prog_bootstrap s k s' tr -> acquire_stmt s k s' tr) /\
+  (forall s k s' tr, exec prog_bootstrap_with s k s' tr -> s' = s).
+Proof.
+  split.
+  - apply acquire_from_check. vm_compute. reflexivity.
+  - assert (H : all_paths balanced_c prog_bootstrap_with = true) by (vm_compute; reflexivity).
+    intros s k s' tr HE. destruct (all_paths_sound _ _ H _ _ _ _ HE) as [su [Hc C]].
+    eapply balanced_c_ok; eassumption.
+Qed.
+
 Example scripting_has_both_exits :
   some_path (fun su => kind_eqb (kind_of su) KExc && memN mk_rootfactory (marks su)) prog_prepare = true /\
   some_path (fun su => kind_eqb (kind_of su) KN && memN mk_rootfactory (marks su)) prog_prepare = true /\
